@@ -988,6 +988,40 @@ func concShowSeq(seq []glyph.Info) string {
 
 var concLangs = []language.Tag{language.AmericanEnglish, language.German, language.French, language.Und, language.Japanese}
 
+// concSubsetGlyphs draws the glyph list of the subset op (also used by the generator to pick
+// arguments whose list has a wanted shape).
+func concSubsetGlyphs(n int, r *concRng) []glyph.ID {
+	most := r.intn(2) == 0 // first draw: the generator can force this mode through the argument
+	k := 1 + r.intn(12)
+	seen := map[int]bool{0: true}
+	glyphs := make([]glyph.ID, 1, n+40) // spare capacity: Subset appends to the caller's list
+	if most && n > 8 {
+		// keep (almost) everything, so that whole rules (all components and the output of a
+		// ligature, both glyphs of a pair) survive — but drop a few low glyphs, so that every
+		// retained glyph gets a NEW id
+		drop := map[int]bool{1 + r.intn(3): true, 1 + r.intn(8): true}
+		for g := 1; g < n; g++ {
+			if !drop[g] {
+				seen[g] = true
+				glyphs = append(glyphs, glyph.ID(g))
+			}
+		}
+		k = 0
+	}
+	for len(glyphs) < k && len(glyphs) < n {
+		g := r.intn(n)
+		if !seen[g] {
+			seen[g] = true
+			glyphs = append(glyphs, glyph.ID(g))
+		}
+	}
+	if r.intn(3) == 0 && !seen[n-1] && n > 1 {
+		glyphs = append(glyphs, glyph.ID(n-1)) // the last glyph: deepest nested composite, if any
+	}
+	sort.Slice(glyphs, func(i, j int) bool { return glyphs[i] < glyphs[j] })
+	return glyphs
+}
+
 type concOp struct {
 	name string
 	// which fonts it is meaningful for: "" any, "cff", "glyf", "gtab"
@@ -1011,35 +1045,7 @@ var concOps = []concOp{
 		return fmt.Sprintf("cff,err=%v,%s", err, concSum(buf.Bytes()))
 	}},
 	{"subset", "", func(f *sfnt.Font, r *concRng) string {
-		n := f.NumGlyphs()
-		most := r.intn(2) == 0 // first draw: the generator can force this mode through the argument
-		k := 1 + r.intn(12)
-		seen := map[int]bool{0: true}
-		glyphs := make([]glyph.ID, 1, n+40) // spare capacity: Subset appends to the caller's list
-		if most && n > 8 {
-			// keep (almost) everything, so that whole rules (all components and the output of a
-			// ligature, both glyphs of a pair) survive — but drop a few low glyphs, so that every
-			// retained glyph gets a NEW id
-			drop := map[int]bool{1 + r.intn(3): true, 1 + r.intn(8): true}
-			for g := 1; g < n; g++ {
-				if !drop[g] {
-					seen[g] = true
-					glyphs = append(glyphs, glyph.ID(g))
-				}
-			}
-			k = 0
-		}
-		for len(glyphs) < k && len(glyphs) < n {
-			g := r.intn(n)
-			if !seen[g] {
-				seen[g] = true
-				glyphs = append(glyphs, glyph.ID(g))
-			}
-		}
-		if r.intn(3) == 0 && !seen[n-1] && n > 1 {
-			glyphs = append(glyphs, glyph.ID(n-1)) // the last glyph: deepest nested composite, if any
-		}
-		sort.Slice(glyphs, func(i, j int) bool { return glyphs[i] < glyphs[j] })
+		glyphs := concSubsetGlyphs(f.NumGlyphs(), r)
 		sub := f.Subset(glyphs)
 		// the subset itself, then its written form (writing some subsets panics: reported, not fatal)
 		res := fmt.Sprintf("ng=%d,h=%x,", sub.NumGlyphs(), deepHash(sub.Gsub)^deepHash(sub.Gpos)^deepHash(sub.CMapTable))
@@ -1785,10 +1791,21 @@ func areaConc(c *Ctx) {
 			i++
 		}
 	}
-	// Subset of few, unhinted glyphs of a font that carries hinting tables (small-list mode forced)
+	// Subset of few, UNHINTED glyphs of a font that carries hinting tables: arguments are drawn
+	// until the op's glyph list avoids the two glyphs that kept their instructions
+	unhFont := concFont("sttfunhint")
+	unhCmap, _ := unhFont.CMapTable.GetBest()
+	unhinted := func(arg uint64) bool {
+		for _, g := range concSubsetGlyphs(unhFont.NumGlyphs(), &concRng{s: arg}) {
+			if g == unhCmap.Lookup('H') || g == unhCmap.Lookup('I') {
+				return false
+			}
+		}
+		return true
+	}
 	for k := 0; k < 4; k++ {
 		arg := c.Rng.U64() >> 1
-		for (&concRng{s: arg}).intn(2) == 0 {
+		for !unhinted(arg) {
 			arg = c.Rng.U64() >> 1
 		}
 		c.Stat("pure.result", strings.SplitN(c.Case(Direct, "conc.pure", fmt.Sprintf("op=subset font=sttfunhint arg=%d", arg), true), ":", 2)[0])
